@@ -348,6 +348,8 @@ pub fn check(rep: &Report) {
         long.push(Case { exported: Some(exported.clone()), keys: vec![], history: (0..700).map(|i| (i % 3 != 2, engine::src::expand(i as u32 + 1, (i % 5) as usize))).collect(), tamper: None });
         long.push(Case { exported: Some(exported), keys: vec![], history: [10usize, 4096, 4097, 3, 70_000, 0, 9000, 1].iter().enumerate().map(|(i, l)| ((i + k as usize) % 2 == 0, engine::src::expand(i as u32 + 9, *l))).collect(), tamper: None });
     }
+    // more messages than a 16-bit counter holds, on one context (both directions)
+    long.push(Case { exported: Some(engine::src::expand(0x5151, 16)), keys: vec![], history: (0..70_000u32).map(|i| (i % 2 == 0, vec![(i % 251) as u8; (i % 3) as usize])).collect(), tamper: None });
     rep.list("long-histories", long, run);
     rep.random("handshake-contexts", rep.tier.n(60_000, 1_000_000), 260, decode_handshake, run_handshake);
     rep.require("handshake-contexts", "re-authentication", 5000);
